@@ -28,7 +28,7 @@ CASES = {"quick": 128, "thorough": 2400}
 BUDGET_S = {"quick": 40, "thorough": 600}
 MIN_EVALS = {"quick": 500, "thorough": 12000}
 FLOORS = {"cmp_remote": 500, "cmp_marker": 500, "incremental": 300, "full_fresh": 80, "skip_k": 40, "backwards_overwrite": 30,
-          "diverged_refused": 20, "delta_renamed": 100, "delta_removed": 100, "delta_kind_changed": 30, "delta_swap": 15,
+          "diverged_refused": 20, "delta_renamed": 100, "delta_removed": 100, "delta_kind_changed": 30, "delta_swap": 15, "delta_dir_onto_removed_dir": 10,
           "ignored_paths": 40, "symlink_compared": 60, "exec_compared": 60}
 SHARDS = {"quick": 8}  # every worker pays the same start-up (imports are compiled per process); fewer, longer shards
 EXHAUSTIVE = {"quick": False, "thorough": False}
@@ -108,13 +108,73 @@ def _safe_link_target(rng, rel):
     return rng.choice(["f1", "d1", "nowhere", "d1/f1", "sub/x", "g.txt"])
 
 
+def _dir_replace(rng, wt, log):
+    """rm -r D where one child of D is renamed out of it first (so the remote rmdir of D has to be deferred), then mv E D for another
+    directory E (empty or populated): the freed path is taken again by a directory inside one upload."""
+    b = wt.basedir
+    st = _versioned(wt)
+    with wt.lock_read():
+        basis = observe.snap_tree(wt.basis_tree())
+
+    def committed(p):
+        return p in basis and basis[p][0] == st[p][0] and basis[p][3] == st[p][3]
+
+    dirs = [p for p in sorted(st) if st[p][0] == "directory" and committed(p)]
+    cands = []
+    for d in dirs:
+        kids = [q for q in st if q.rpartition("/")[0] == d and st[q][0] in ("file", "symlink") and committed(q)]
+        if kids:
+            for e in dirs:
+                if e != d and not e.startswith(d + "/") and not d.startswith(e + "/"):
+                    cands.append((d, kids, e))
+    if not cands:
+        return False
+    d, kids, e = rng.choice(cands)
+    kid = rng.choice(sorted(kids))
+    out = next((n for n in ("moved-out", "moved-out2", "moved-out3") if n not in st and not os.path.lexists(os.path.join(b, n))), None)
+    if out is None:
+        return False
+    try:
+        wt.rename_one(kid, out)
+        wt.remove([d], keep_files=False, force=True)
+        if os.path.lexists(os.path.join(b, d)):
+            gen._rm(os.path.join(b, d))
+        wt.rename_one(e, d)
+    except Exception as ex:
+        log.append({"refused": "dir_replace", "err": type(ex).__name__})
+        try:
+            wt.revert()
+        except Exception:
+            pass
+        return False
+    log.append({"op": "dir_replace", "removed": d, "child_moved_out": kid, "renamed_onto_it": e,
+                "e_populated": any(q.startswith(e + "/") for q in st)})
+    return True
+
+
+def _plant_dirs(rng, wt):
+    """Two committed directories for _dir_replace: one with two files, one empty or with one file."""
+    b = wt.basedir
+    for d, files in (("d1", ["f1", "f2"]), ("d2", [] if rng.random() < 0.5 else ["f3"])):
+        ap = os.path.join(b, d)
+        if not os.path.lexists(ap):
+            os.mkdir(ap)
+        if os.path.isdir(ap) and not os.path.islink(ap):
+            for f in files:
+                if not os.path.lexists(os.path.join(ap, f)):
+                    with open(os.path.join(ap, f), "wb") as fh:
+                        fh.write(gen.gen_content(rng, hostile=False))
+
+
 def _special_op(rng, wt, names, log):
     """One op the shared generator does not produce (or produces with unsuitable symlink targets). Returns True if applied."""
     b = wt.basedir
     st = _versioned(wt)
     paths = sorted(st)
     kind = rng.choice(["swap", "swap", "symlink", "symlink", "retarget", "kc_inplace", "kc_inplace", "kc_readd", "ignore", "ignore",
-                       "rename_edit", "dir_rename"])
+                       "rename_edit", "dir_rename", "dir_replace"])
+    if kind == "dir_replace":
+        return _dir_replace(rng, wt, log)
 
     def free_path(root_mostly=False):
         dirs = [""] + [p for p in paths if st[p][0] == "directory"]
@@ -306,10 +366,17 @@ def _build(ctx, rng):
     ncommits = rng.randint(5, 8) if ctx.tier == "quick" else rng.randint(8, 14)
     revs = []
     guard = 0
+    plant = rng.random() < 0.6
+    replace_at = rng.randint(1, 3)
     while len(revs) < ncommits and guard < ncommits * 4:
         guard += 1
         first = not revs
         nops = rng.randint(4, 8) if first else rng.randint(1, 4)
+        if first and plant:
+            _plant_dirs(rng, wt)
+        if plant and len(revs) == replace_at:
+            _dir_replace(rng, wt, h.log)
+            replace_at = -1
         for _ in range(nops):
             if not first and rng.random() < 0.45:
                 _special_op(rng, wt, names, h.log)
@@ -731,6 +798,10 @@ def case(ctx):
                 ctx.count("delta_kind_changed")
             if swap:
                 ctx.count("delta_swap")
+            if any(c.startswith("removed:directory") for c in classes) and any(
+                    delta.cls.get(f, "").endswith(":directory") and delta.cls[f].startswith("renamed") and "path-reused" in delta.flags.get(f, ())
+                    for f in delta.cls):
+                ctx.count("delta_dir_onto_removed_dir")
         nontrivial = (len(new) >= 3) if mode.startswith("full") else any(
             c.startswith(("renamed", "removed")) or "kind_changed" in c for c in classes)
         hh = hashlib.sha1(repr(sorted((p, v[0], v[2]) for p, v in new.items())).encode()).hexdigest()[:10]
